@@ -100,3 +100,89 @@ func ruleC12Methods(p *Prog, a *Anchors, r *Report) {
 		r.Trivial("MethodByName", "-", "execution never looks methods up by name")
 	}
 }
+
+// R-C12-STATESCOPE: "macros … see the scope they are called/defined in; a `with`/`for`/macro scope ends with its
+// block". What a node keeps for the whole rendering (the node state shared by every context of the rendering) outlives
+// every scope: a function value or record stored there must not hold on to one scope's ExecutionContext — it would go
+// on running in a scope that has ended (the first pass of a loop, the first call of a macro).
+func ruleC12StateScope(p *Prog, a *Anchors, r *Report) {
+	r.Begin("R-C12-STATESCOPE", "nothing kept in the per-rendering node state refers to a scope's ExecutionContext (no closure over ctx, no record holding one)", 2)
+	// the rendering-wide table: a map field of ExecutionContext keyed by INode
+	st := a.ExecCtx.Underlying().(*types.Struct)
+	field := ""
+	for i := 0; i < st.NumFields(); i++ {
+		if m, ok := st.Field(i).Type().Underlying().(*types.Map); ok {
+			if n, ok := m.Key().(*types.Named); ok && n.Obj().Name() == "INode" {
+				field = st.Field(i).Name()
+			}
+		}
+	}
+	if field == "" {
+		r.Unk("anchor", "-", "anchor unresolved: the map field of ExecutionContext keyed by INode")
+		return
+	}
+	ctxPtr := types.NewPointer(a.ExecCtx)
+	holdsCtx := func(T types.Type) bool {
+		return types.Identical(T, ctxPtr) || typeHolds(T, a.ExecCtx, map[types.Type]bool{})
+	}
+	n := 0
+	var judge func(v ssa.Value, at ssa.Instruction, where string, depth int)
+	judge = func(v ssa.Value, at ssa.Instruction, where string, depth int) {
+		if mi, ok := v.(*ssa.MakeInterface); ok {
+			v = mi.X
+		}
+		if pa, ok := v.(*ssa.Parameter); ok && depth < 3 {
+			sites := paramActualSites(p, pa)
+			if len(sites) == 0 {
+				r.Unk(where+":stored", p.InstrPos(at), "what is stored cannot be related to its callers")
+				return
+			}
+			for _, s := range sites {
+				judge(s.val, s.site, p.FuncName(topLevel(s.site.Parent())), depth+1)
+			}
+			return
+		}
+		n++
+		key := where + ":keeps"
+		switch x := v.(type) {
+		case *ssa.MakeClosure:
+			for i, b := range x.Bindings {
+				T := b.Type()
+				if pt, ok := T.(*types.Pointer); ok {
+					if _, isAlloc := b.(*ssa.Alloc); isAlloc {
+						T = pt.Elem() // a captured variable: what it holds
+					}
+				}
+				if holdsCtx(T) {
+					fv := "?"
+					if fn, ok := x.Fn.(*ssa.Function); ok && i < len(fn.FreeVars) {
+						fv = fn.FreeVars[i].Name()
+					}
+					r.Bad(key, p.InstrPos(at), "a function value that captured the execution context (%s) is kept for the whole rendering: it goes on running in the scope it was made in, also after that scope has ended (the with-pairs, macro arguments or loop variable of the first pass)", fv)
+					return
+				}
+			}
+			r.OK(key, p.InstrPos(at), "the function value kept captures no execution context")
+		default:
+			if holdsCtx(v.Type()) {
+				r.Bad(key, p.InstrPos(at), "a value of type %s, which holds an execution context, is kept for the whole rendering: it outlives the scope it was made in", types.TypeString(v.Type(), types.RelativeTo(a.ExecCtx.Obj().Pkg())))
+				return
+			}
+			r.OK(key, p.InstrPos(at), "%s holds no execution context", types.TypeString(v.Type(), types.RelativeTo(a.ExecCtx.Obj().Pkg())))
+		}
+	}
+	for _, f := range p.Funcs {
+		for _, b := range f.Blocks {
+			for _, in := range b.Instrs {
+				mu, ok := in.(*ssa.MapUpdate)
+				if !ok || !loadsField(mu.Map, "ExecutionContext", field) {
+					continue
+				}
+				judge(mu.Value, in, p.FuncName(topLevel(f)), 0)
+			}
+		}
+	}
+	if n == 0 {
+		r.Unk("none", "-", "no store into ExecutionContext.%s found", field)
+	}
+}
